@@ -222,6 +222,15 @@ pub fn tri_case(args: &Args, prop: &str, idx: usize, gen: &CaseGen, c01_seeds: u
     if case.outputs.is_empty() {
         stats.probe("config:empty-output-set", 1);
     }
+    if let crate::exec::Oracle::Trunc { wraps, plus_one, exact, scale, all_public, .. } = &c.oracle {
+        stats.probe("truncate:elements-exact(or within 1 for general divisor)", exact.get());
+        stats.probe("truncate:elements-floor-plus-one", plus_one.get());
+        stats.probe("truncate:documented-wrap-around-accepted", wraps.get());
+        stats.probe(if scale.is_power_of_two() { "truncate:cases-power-of-two" } else { "truncate:cases-general-divisor" }, 1);
+        if *all_public {
+            stats.probe("truncate:cases-public-exact", 1);
+        }
+    }
     if out.sample.is_none() {
         out.sample = Some(case_sample(&case, &c, serde_json::json!(null)));
     }
@@ -429,6 +438,29 @@ pub fn run_c19(args: &Args) -> i32 {
         "C19",
         "exploration",
         "cases = seeded pairs of tables (1..6 rows each, null rows anywhere, 1..3 key columns of random scalar types and row shapes, masked key entries in the masked variant, disjoint/partial/heavy key overlap, 0..2 payload columns) x 4 join types x masked/unmasked x owners x output sets x inline modes; per case: plaintext result vs the harness's reference relational join, the compiled graph's local run, and three-party simulated runs under junk/tape/schedule/network faults. distinct_nontrivial as in C02",
+        results,
+        t0.elapsed().as_secs_f64(),
+        common_assumptions(),
+        n,
+    )
+}
+
+pub fn run_c05(args: &Args) -> i32 {
+    let t0 = std::time::Instant::now();
+    let n = args.cases.unwrap_or(match args.tier {
+        Tier::Quick => 600,
+        Tier::Thorough => 60000,
+    });
+    // the case index is needed by the generator (exhaustive 8-bit cases come first)
+    let results = run_cases(n, args.threads, |r: &TriCaseOut| r.violation.is_some(), |i| {
+        let gen = move |rng: &mut Rng| Some(crate::gen_tables::truncate_case(rng, i));
+        tri_case(args, "C05", i, &gen, 3, 2, 2)
+    });
+    finish(
+        args,
+        "C05",
+        "exploration",
+        "cases = one-Truncate graphs and Multiply->Truncate (fixed-point product) over all 10 integer scalar types; divisors 2^k for every k in 1..w-2 and non-power-of-two divisors; scalar and array shapes; owners/outputs/inline modes; inputs biased to the boundaries of the documented range (0, +-1, +-2^k, +-2^k-+1, multiples of the divisor +-1, -M/4, M/4-1, M/2-1); the first 24 cases enumerate EVERY admissible i8/u8 input for every k in 1..6. Per case: local runs with 3 evaluator seeds, one-party scheduled runs, and three-party runs with independent tapes, junk and random schedules. Oracle: result - floor(x/2^k) in {0,1}; general divisor (signed): |result - quotient| <= 1, or the documented wrap-around class (counted; not accepted for |x| < 2^16 on 64/128-bit types); public operands exact",
         results,
         t0.elapsed().as_secs_f64(),
         common_assumptions(),
